@@ -218,8 +218,8 @@ func ruleFragmentPop(c *Ctx, r *Report) {
 	}
 	// only the success path deletes the entry and advances the cursor
 	var effects []ssa.Instruction
-	for _, ci := range callsIn(fn, nameIs("builtin:delete")) {
-		effects = append(effects, ci)
+	for _, cd := range c.cacheDeletes(fn) {
+		effects = append(effects, cd.at)
 	}
 	nAdv := 0
 	for _, b := range fn.Blocks {
@@ -399,4 +399,161 @@ func rulePopAfterPush(c *Ctx, r *Report) {
 		bad = append(bad, c.ipos(ro.Ret))
 	}
 	r.Check(len(bad) == 0, rule, short(fn), c.ipos(pushes[0]), "after a successful Push every return is preceded by a Pop", "a record whose fragments were buffered can be reported as handled without draining the reassembly buffer (returns at "+strings.Join(bad, ", ")+"): a message completed by that record is never delivered")
+}
+
+// ruleAdvanceKeepsCurrent (C12): a function that moves the delivery cursor forward to a given
+// message sequence and discards buffered fragments discards only what lies *before* the new cursor:
+// with the discarded key equal to (or beyond) the new cursor value the deletion is unreachable.
+// Otherwise an early fragment of the message the cursor now points at is lost although every byte
+// of it was received.
+func ruleAdvanceKeepsCurrent(c *Ctx, r *Report) {
+	const rule = "advance-keeps-current"
+	n := 0
+	for _, fn := range c.fnsOfPkg("internal/fragmentbuffer") {
+		if len(fn.Blocks) == 0 {
+			continue
+		}
+		// the new cursor value: a store to currentMessageSequenceNumber that is not cursor+1
+		var newCur ssa.Value
+		for _, st := range c.StoresTo("internal/fragmentbuffer.FragmentBuffer", "currentMessageSequenceNumber") {
+			if st.Fn != fn {
+				continue
+			}
+			if bo, ok := st.Val.(*ssa.BinOp); ok && bo.Op == token.ADD {
+				continue
+			}
+			newCur = st.Val
+		}
+		if newCur == nil {
+			continue
+		}
+		dels := c.cacheDeletes(fn)
+		if len(dels) == 0 {
+			continue
+		}
+		r.Sites += len(fn.Blocks)
+		for _, cdel := range dels {
+			del := cdel.at
+			keyLeaves := c.Origins(cdel.key, 0)
+			curLeaves := c.Origins(newCur, 0)
+			derives := func(v ssa.Value, leaves []ssa.Value) bool {
+				ls := c.Origins(v, 0)
+				if len(ls) == 0 {
+					return false
+				}
+				for _, l := range ls {
+					found := false
+					for _, k := range leaves {
+						if l == k {
+							found = true
+						}
+					}
+					if !found {
+						return false
+					}
+				}
+				return true
+			}
+			for _, rel := range []string{"equal to", "beyond"} {
+				relv := rel
+				matched := false
+				w := &Walk{Fn: fn, Assume: func(v ssa.Value) (Val, bool) {
+					bo, ok := v.(*ssa.BinOp)
+					if !ok {
+						return unknown, false
+					}
+					var keyLeft bool
+					switch {
+					case derives(bo.X, keyLeaves) && derives(bo.Y, curLeaves):
+						keyLeft = true
+					case derives(bo.Y, keyLeaves) && derives(bo.X, curLeaves):
+						keyLeft = false
+					default:
+						return unknown, false
+					}
+					// cmp = sign(key - cursor)
+					cmp := 0
+					if relv == "beyond" {
+						cmp = 1
+					}
+					if !keyLeft {
+						cmp = -cmp
+					}
+					var b bool
+					switch bo.Op {
+					case token.EQL:
+						b = cmp == 0
+					case token.NEQ:
+						b = cmp != 0
+					case token.LSS:
+						b = cmp < 0
+					case token.LEQ:
+						b = cmp <= 0
+					case token.GTR:
+						b = cmp > 0
+					case token.GEQ:
+						b = cmp >= 0
+					default:
+						return unknown, false
+					}
+					matched = true
+					return vBool(b), true
+				}}
+				w.FromEntry()
+				n++
+				key := fmt.Sprintf("%s:key-%s-new-cursor", short(fn), strings.ReplaceAll(relv, " ", "-"))
+				if !matched {
+					r.Bad(rule, key, c.ipos(del), "buffered fragments are discarded without comparing their message sequence with the new cursor")
+					continue
+				}
+				r.Check(!w.Reached[del], rule, key, c.ipos(del), "a buffered message "+relv+" the new cursor is kept", "fragments of a message whose sequence is "+relv+" the new cursor are discarded: every byte of that message may have been received, yet it is never delivered")
+			}
+		}
+	}
+	r.Floor(rule, n, 2)
+}
+
+// cacheDelete is a removal of an entry from FragmentBuffer.cache: the builtin delete itself, or a
+// call to a same-package helper that deletes the key it is given.
+type cacheDelete struct {
+	at  ssa.Instruction
+	key ssa.Value
+}
+
+func (c *Ctx) cacheDeletes(fn *ssa.Function) []cacheDelete {
+	var out []cacheDelete
+	for _, b := range fn.Blocks {
+		for _, in := range b.Instrs {
+			call, ok := in.(*ssa.Call)
+			if !ok {
+				continue
+			}
+			if bi, isB := call.Call.Value.(*ssa.Builtin); isB && bi.Name() == "delete" && len(call.Call.Args) == 2 {
+				if isFieldLoad(call.Call.Args[0], "internal/fragmentbuffer.FragmentBuffer", "cache") {
+					out = append(out, cacheDelete{call, call.Call.Args[1]})
+				}
+				continue
+			}
+			callee := call.Call.StaticCallee()
+			if callee == nil || callee == fn || callee.Pkg != fn.Pkg || len(callee.Blocks) == 0 {
+				continue
+			}
+			for _, b2 := range callee.Blocks {
+				for _, in2 := range b2.Instrs {
+					c2, ok := in2.(*ssa.Call)
+					if !ok {
+						continue
+					}
+					if bi, isB := c2.Call.Value.(*ssa.Builtin); isB && bi.Name() == "delete" && len(c2.Call.Args) == 2 && isFieldLoad(c2.Call.Args[0], "internal/fragmentbuffer.FragmentBuffer", "cache") {
+						if p, isP := c2.Call.Args[1].(*ssa.Parameter); isP {
+							if pi := paramIndex(p); pi >= 0 && pi < len(call.Call.Args) {
+								out = append(out, cacheDelete{call, call.Call.Args[pi]})
+							}
+						}
+					}
+				}
+			}
+		}
+	}
+	return out
 }
